@@ -90,9 +90,9 @@ def _run(c, prop, parts, quick, thorough):
 
 
 def c12(c):
-    c.assumptions += ["c12_message_roundtrip covers uncompressed and (under the law inflate(answer) = original) compressed messages written by "
-                      "write_message and fed in one piece; interleaved control frames and arbitrary segmentation are decided by the differential "
-                      "run and the round-trip oracle on every run"]
+    c.assumptions += ["c12_message_roundtrip covers one uncompressed or (under the law 'reading the decompressor to its end gives the message') compressed "
+                      "message written by write_message and fed in one piece to an idle receiver without a length limit; several messages, interleaved "
+                      "control frames, limits and arbitrary segmentation are decided by the differential run and the round-trip oracle on every run"]
     _run(c, "C12", "12", 1500, 60000)
 
 
@@ -116,38 +116,44 @@ MANIFEST = {
     "C12": dict(
         technique="Coq model of the WebSocket codec (frame encode/decode, masking, fragmentation, Parse loop) with round-trip theorems + "
                   "differential run of the extracted model against real Conn pairs + implementation-side round-trip oracle",
-        text="coq/ws/C12.v: c12_frame_roundtrip (decoding an encoded frame gives the frame and the rest, all lengths < 2^63, masked or not, any key), "
-             "c12_message_roundtrip (parsing what write_message wrote delivers exactly that message: any length incl. 0, any frame limit > 0, both roles, "
-             "any mask keys; with compression under the law inflate(answer) = original). Every run: real websocket.Conn sender and receiver over an in-memory "
-             "connection (both roles, compression on/off and all levels, frame limits 1..1 MiB, lengths 0/1/125-127/65535-65537/around the frame limit/MiBs, "
-             "random and compressible content, pings between messages and spliced between fragments, all compositions of short wires, byte-wise, single cuts, "
-             "random cuts); the sender's wire bytes and the receiver's events and state are compared with the model; oracle: delivered == sent (type, payload, "
-             "once, in order), the wire decodes with an independent decoder and flate.",
-        note="Partial: segmentation independence and interleaved control frames are decided by the differential run, not by a theorem; DEFLATE and the unrolled "
-             "XOR loop are outside the proof. Findings on the unchanged tree (reported, see known_findings): control frames are fragmented when "
-             "MaxWebsocketFramePayloadSize < payload; a control frame between fragments is counted against MessageLengthLimit.",
+        text="coq/ws/C12.v: c12_frame_roundtrip (decoding an encoded frame gives the frame and the rest: all lengths < 2^63, masked with any key or not, any "
+             "FIN/RSV1/opcode), c12_message_roundtrip (Parse on an idle connection given what WriteMessage wrote delivers exactly that message, once, with its type: "
+             "any length incl. 0, any frame limit > 0, both roles, any mask keys) and c12_message_roundtrip_compressed (the same with permessage-deflate under the single "
+             "law 'reading the decompressor to its end gives back the message'; deflate output and reader answers are oracle inputs). Every run: real websocket.Conn "
+             "sender and receiver over an in-memory connection (both roles, compression on/off and all levels, frame limits 1..1 MiB, lengths 0/1/125-127/65535-65537/"
+             "around the frame limit/MiBs, random, compressible and UTF-8 content, pings between messages and control frames spliced between fragments, all compositions of "
+             "short wires, byte-wise, single cuts, random cuts); the sender's wire bytes and the receiver's events and state are compared with the model; oracle: "
+             "delivered == sent (type, payload, once, in order), pings answered, and the wire decodes with an independent decoder and compress/flate.",
+        note="Partial: several messages with interleaved control frames, a receiver-side length limit and arbitrary segmentation are decided by the differential run and the "
+             "oracle, not by a theorem; DEFLATE and the unrolled XOR loop are outside the proof. Found on the pinned tree and fixed in /repo (D29 control frames fragmented "
+             "when MaxWebsocketFramePayloadSize < payload, D30 control frames counted against MessageLengthLimit); both oracle signatures stay armed.",
         design="4/C12, Appendix D, L"),
     "C13": dict(
-        technique="generated table of the real validFrame/validCloseCode proved equal to an independently written RFC predicate (vm_compute sweeps) + "
-                  "Coq model of Parse/handleWsMessage + differential run + conformance oracle with an independent frame generator and RFC reference",
-        text="coq/ws/C13.v: c13_frame_table (the 1024-row table dumped from the real validFrame equals rfc_frame_ok), c13_close_codes (the intervals dumped from the "
-             "real validCloseCode equal the RFC predicate on all 65536 codes), the model's predicates equal the dumped tables, sequence theorems on the model "
-             "(no delivery from an offending frame on, ping answered by pong with the same payload, close answered by close). Every run: hand-written frame "
-             "generator over FIN x RSV1-3 x 16 opcodes x mask x length encodings x inside/outside a fragmented message x compression, UTF-8 vectors split at "
-             "every byte across fragments, close-code classes (all 65536 in the thorough tier), sequencing cases, permessage-deflate cases, random valid and mutated "
-             "sequences, in whole/per-frame/byte-wise/single-cut/random segmentations; verdict, deliveries and replies must equal an RFC 6455 reference written "
-             "in the harness, and the model must agree with the implementation.",
-        note="Partial: c13_sequences as a full iff is not a theorem. Trusted: Coq kernel incl. vm_compute, extraction, harness, compress/flate. The table is regenerated "
-             "from the code through the overlay before every Coq build.",
+        technique="tables generated from the real validFrame / Conn.Parse / validCloseCode proved equal to an independently written RFC predicate (vm_compute sweeps), the model "
+                  "proved equal to the same tables + theorems about the default handlers + differential run + conformance oracle with an independent frame generator and RFC reference",
+        text="coq/ws/C13.v: c13_frame_table (the error class of the REAL Conn.Parse for one frame, dumped for FIN x RSV1-3 x 16 opcodes x expectingFragments x enableCompression = "
+             "1024 rows, is 'accepted' exactly where rfc_frame_ok holds), c13_validframe_table (the helper alone differs only for FIN frames with opcodes 11-15, which Parse's dispatch "
+             "rejects), c13_close_codes (the real validCloseCode equals the RFC predicate on all 65536 codes), c13_model_parse_is_code / c13_model_validframe_is_code / "
+             "c13_model_close_code_is_code (the model run inside Coq gives the same error class / result on every row and code), c13_ping_pong, c13_close_reply, "
+             "c13_close_empty_reply, c13_bad_text_refused, c13_bad_close_code_refused, c13_bad_close_reason_refused (1002 close frame, connection closed, no handler called), "
+             "c13_no_delivery (the frame on which Parse fails delivers nothing and ends the call). Every run: hand-written frame generator over FIN x RSV1-3 x 16 opcodes x mask x "
+             "length encodings x inside/outside a fragmented message x compression, UTF-8 vectors split at every byte across two and three fragments, close-code classes (all 65536 in "
+             "the thorough tier), sequencing cases, permessage-deflate cases, random valid and mutated sequences, in whole/per-frame/byte-wise/single-cut/random segmentations; verdict, "
+             "deliveries and replies must equal an RFC 6455 reference written in the harness (not the model), and the model must agree with the implementation.",
+        note="Partial: a full 'accepts iff rfc_sequence_ok' over frame sequences is not a theorem (decided by the conformance oracle on every run). The tables are regenerated from the code "
+             "through the overlay before every Coq build. rfc_close_code_ok is the list of DESIGN.md (1015 accepted, 1012-1014 not). Counted, not judged: RSV1 on control/continuation frames "
+             "with permessage-deflate; data delivered after the endpoint itself ended the connection within the same read (flag -strict-after-fail).",
         design="4/C13, Appendix D, R"),
     "C15": dict(
         technique="Coq proof (invariant over the Parse loop, all frame sequences, segmentations and decompressor answers) + differential run + limit oracle",
-        text="coq/ws/C15.v: c15_delivered_bound (limit > 0: every delivered message is at most limit bytes long, for every input, segmentation and every answer of the "
-             "decompressor's Read calls), c15_buffered_bound (the message under assembly never exceeds the limit), c15_cache_bound (unparsed input <= ReadLimit or one "
-             "read), c15_control_125 (send and receive). Every run: limits 1..70000 with messages of limit-1/limit/+1/+2 bytes in one frame, in fragments, header only, "
-             "compressed payloads inflating to limit-1 .. 1000 x limit (sync-flushed and BFINAL streams, three decompressor modes incl. data+EOF in one Read), control frames "
-             "125/126/.. on send and receive, read limits with pieces around the limit; oracle: nothing above the limit delivered, refusal with the too-large error and a 1009 "
-             "close frame, messages within the limit delivered intact, allocator peak bounded, cache bounded.",
-        note="Trusted: as C12. The allocator-peak bound is a generous one-sided test (3 x limit + 2 KiB per Parse), not a theorem.",
+        text="coq/ws/C15.v: c15_delivered_bound / c15_delivered_bound_run (limit > 0: every message handed to OnMessage is at most MessageLengthLimit bytes long, for every input, every "
+             "segmentation into Parse calls interleaved with writes and CloseAndClean, and every answer of the decompressor's Read calls), c15_buffered_bound (the message under assembly "
+             "never exceeds the limit: the declared length is tested before buffering), c15_cache_bound (unparsed input <= max(ReadLimit, longest single read)), c15_control_125_receive "
+             "and c15_control_125_send, c15_1009 (too large => the error and exactly one close frame with code 1009). Every run: limits 1..70000 with messages of limit-1/limit/+1/+2 "
+             "bytes in one frame, in fragments, header only, compressed payloads inflating to limit-1 .. 1000 x limit (sync-flushed and BFINAL streams, three decompressor modes incl. data "
+             "and EOF in one Read), control frames 125/126/.. on send and receive, read limits with pieces around the limit; oracle: nothing above the limit delivered, refusal with the "
+             "too-large error and a 1009 close frame, messages within the limit delivered intact, allocator peak bounded, cache bounded.",
+        note="Theorem hypotheses: limit and held bytes below 2^62 (the code computes the sums in int64; the model has nextFrame's wrap-around explicitly). The allocator-peak bound is a "
+             "generous one-sided test, not a theorem. Trusted: as C12.",
         design="4/C15, Appendix D"),
 }
